@@ -268,6 +268,9 @@ class CallMixin(object):
             self.path.oblige(self.oblname("call:%s/%s" % (short, name)), self.spec(expr, env), kind="precondition")
         if c.trusted_:
             self.note_assumption("assumed contract of %s" % callee)
+        # every contract used at a call site is reported: the runner verifies it in the same run if it can be
+        # verified (closure over callees), otherwise it is listed as assumed
+        self.note_assumption("uses contract of %s" % callee)
         # termination of recursion
         cur = self.frame
         if cur is not None and cur.verifying and getattr(cur, "fullname", None) == callee and c.decreases_:
